@@ -26,6 +26,14 @@ of two, without prefix) joined in one Pretext scaffold whose pieces are all Cont
 untagged / named for another haplotype, a scaffold broken at each of its gaps into pieces so tagged, and whole input
 scaffolds of the seeded edit scripts so tagged.
 
+And the third place, the log line 'Curation made <n> cut(s) ..., <n> break(s) ... and <n> join(s)': for EVERY case the line
+which AssemblyStats.log_curation_stats() logs (called as cli() calls it, the root logger writing into a list) is read - the
+word in front of cut(s) / break(s) / join(s) as a number - and its three numbers are compared with the recount; and for
+the first case of every combination of counts (cuts 0 / 1 / 2+, breaks 0 / 1 / 2 / 3+, joins 0 / 1 / 2 / 3+; thorough:
+the first three) and one case in 499 (thorough 197) the real pretext-to-asm command is run on the case written as AGP
+files and the line in the <output>.log it writes is judged in the same way.  The generator families give every
+combination of one / none / several cuts, breaks and joins (counted in the bounds).
+
 And the *gap-run* families: an adjacency is the pair of the two facing contig ends whatever lies between them, so
 inputs whose contigs are separated by runs of 2-4 consecutive gap rows (legal AGP / TPF), left whole, reversed, broken
 inside the run and rearranged, next to a second scaffold to join to.
@@ -117,6 +125,9 @@ def captured_log():
 
 
 NUMBER_WORDS = {"no": 0, "zero": 0, "a": 1, "an": 1, "one": 1, "two": 2, "three": 3}
+_NOUN_RE = {noun: re.compile(rf"(\S+)\s+(?:manual\s+)?{noun}s?\b", re.IGNORECASE) for noun in ("cut", "break", "join")}
+_GROUPED_RE = re.compile(r"\d{1,3}([,_]\d{3})+")
+_LINE_RE = re.compile(r"\s*curation made\b", re.IGNORECASE)
 
 
 def stated_count(line, noun):
@@ -125,21 +136,24 @@ def stated_count(line, noun):
     in front of the first cut / cuts (break / breaks, join / joins), read as a decimal number (thousands separators
     allowed) or a number word.  None if the line does not state one.
     """
-    m = re.search(rf"(\S+)\s+(?:manual\s+)?{noun}s?\b", line, re.IGNORECASE)
+    m = _NOUN_RE[noun].search(line)
     if not m:
         return None
     word = m.group(1).strip("(:;")
-    if re.fullmatch(r"\d{1,3}([,_]\d{3})+|\d+", word):
-        return int(re.sub(r"[,_]", "", word))
+    if word.isascii() and word.isdigit():
+        return int(word)
+    if _GROUPED_RE.fullmatch(word):
+        return int(word.replace(",", "").replace("_", ""))
     return NUMBER_WORDS.get(word.lower())
 
 
-def log_line_problems(lines, want, detail):
+def log_line_problems(lines, want, detail, said=None):
     """
     lines: what was logged; want: {"cut": n, "break": n, "join": n} by the recount.  The line 'Curation made ...' is
-    there once and states the three numbers.
+    there once and states the three numbers.  said: wrong numbers already found elsewhere for this run ({noun: n}); a
+    log line which merely repeats one of them is not listed a second time.
     """
-    found = [ln for ln in lines if re.match(r"\s*curation made\b", ln, re.IGNORECASE)]
+    found = [ln for ln in lines if _LINE_RE.match(ln)]
     if len(found) != 1:
         return [f"{len(found)} lines 'Curation made ...' in the log ({found if found else lines[:5]})"]
     problems = []
@@ -147,7 +161,7 @@ def log_line_problems(lines, want, detail):
         got = stated_count(found[0], noun)
         if got is None:
             problems.append(f"log line {found[0]!r} states no number of {noun}s (recount: {n})")
-        elif got != n:
+        elif got != n and not (said and said.get(noun) == got):
             problems.append(f"log line {found[0]!r} states {got} {noun}{'' if got == 1 else 's'}, recount: {n}{detail.get(noun, '')}")
     return problems
 
@@ -200,6 +214,7 @@ def check(case, col):
         logged_by_stats(run),
         {"cut": cuts, "break": breaks, "join": joins},
         {"break": f" (input adjacencies gone: {fmt(in_adj - out_adj)})", "join": f" (new output adjacencies: {fmt(out_adj - in_adj)})"},
+        said={"cut": run.cuts, "break": run.breaks, "join": run.joins} if problems else None,
     )
     # haplotig removals: the number in *.info.yaml against the scaffolds of the Haplotig assembly that is written
     hap_scaffolds = run.out.get("Haplotig", {"scaffolds": []})["scaffolds"]
@@ -238,10 +253,55 @@ def check(case, col):
     return (cuts, breaks, joins, len(hap_scaffolds))
 
 
+def check_cli(case, col):
+    """
+    the same numbers at the far end: the case's input and map written as AGP files, the real pretext-to-asm command run on
+    them (in process, as the tests run it) with an output file, and the line 'Curation made ...' of the <output>.log it
+    writes judged against the recount over the output of the run on those texts.  A command that exits with an error is not
+    judged.  Returns True if judged.
+    """
+    from . import cli_gen
+
+    case = {**case, "via": "agp"}
+    run = pg.run_case(case)
+    if run.error is not None:
+        return False
+    cuts, breaks, joins, in_adj, out_adj = recount(case["input"], run.out)
+    d = pathlib.Path(tempfile.mkdtemp(prefix="cli-", dir=_SCRATCH[-1] if _SCRATCH else None))
+    try:
+        (d / "in.agp").write_text(pg.input_agp_text(case["input"]))
+        (d / "pretext.agp").write_text(pg.pretext_agp_text(case["map"]))
+        # the command sets up the root logger itself (run_pretext_to_asm puts handlers and level back, and click's runner
+        # keeps the console output); only a disable mark left by someone else would keep it from logging
+        mark = logging.root.manager.disable
+        logging.disable(logging.NOTSET)
+        try:
+            code, _, _, exc = cli_gen.run_pretext_to_asm(["-a", d / "in.agp", "-p", d / "pretext.agp", "-o", d / "out.agp", "-c", case.get("prefix", "SUPER_")])
+        finally:
+            logging.disable(mark)
+        if code != 0 or exc is not None:
+            return False
+        log = d / "out.log"
+        lines = log.read_text().splitlines() if log.exists() else []
+    finally:
+        shutil.rmtree(d, ignore_errors=True)
+    problems = log_line_problems(
+        lines,
+        {"cut": cuts, "break": breaks, "join": joins},
+        {"break": f" (input adjacencies gone: {fmt(in_adj - out_adj)})", "join": f" (new output adjacencies: {fmt(out_adj - in_adj)})"},
+    )
+    if problems:
+        col.fail("pretext-to-asm run on the AGP files of the case, out.log: " + "; ".join(problems), case)
+    return True
+
+
 def replay(inp):
     col = Collector("replay")
     with scratch_dir():
-        check(inp, col)
+        if inp.get("cli"):
+            check_cli(inp, col)
+        else:
+            check(inp, col)
     return col.failures[0]["message"] if col.failures else None
 
 
@@ -739,12 +799,16 @@ def _run(tier, seed, **opts):
         "recount over unordered pairs of facing contig ends, judged against the statistics object and, when the info.yaml "
         "written for the run is read (every prefix / outside case, every case whose map carries a Haplotig / Contaminant / "
         "FalseDuplicate tag, one in 5 of the gap-run cases and one in 41 of the others), against its top-level manual_breaks / "
-        "manual_joins where present; and the haplotig removals of that file "
+        "manual_joins where present; against the three numbers read from the log line 'Curation made ...' (every case: as "
+        "AssemblyStats.log_curation_stats() logs it; the first case(s) of every combination of counts and one case in "
+        f"{499 if tier == 'quick' else 197}: as the real pretext-to-asm command writes it into <output>.log); and the haplotig removals of the info.yaml "
         "against the scaffolds of the Haplotig assembly; non-trivial = distinct completed case with cuts + breaks + joins "
         "> 0, a reversed piece, or a Haplotig-tagged piece"
     )
-    stats = {"errors": 0, "yaml read": 0, "haplotig pieces != haplotig scaffolds": 0}
+    stats = {"errors": 0, "yaml read": 0, "haplotig pieces != haplotig scaffolds": 0, "through the command line": 0}
     n = 0
+    count_classes = {}  # (cuts, breaks, joins by the recount, capped at 2 / 3 / 3) -> cases
+    every = 499 if tier == "quick" else 197
 
     def one(case, fam, model=True, yaml=False):
         nonlocal n
@@ -760,6 +824,13 @@ def _run(tier, seed, **opts):
         hap = sum(1 for p in pieces if "Haplotig" in p[4])
         if r is not None and hap != r[3]:
             stats["haplotig pieces != haplotig scaffolds"] += 1
+        if r is not None:
+            # the first case (thorough: the first three) of every combination of counts, and one case in `every`, goes
+            # through the real command line as well
+            cls = (min(r[0], 2), min(r[1], 3), min(r[2], 3))
+            count_classes[cls] = count_classes.get(cls, 0) + 1
+            if count_classes[cls] <= (1 if tier == "quick" else 3) or n % every == 0:
+                stats["through the command line"] += bool(check_cli({**case, "cli": True}, col))
         col.case(
             hash(pg.case_key(case)),  # 64-bit hash of the identity: the distinct count needs no more, and the keys of a thorough run would fill 1 GB
             nontrivial=r is not None and (sum(r[:3]) > 0 or rev or hap > 0),
@@ -840,7 +911,9 @@ def _run(tier, seed, **opts):
             f"pairs joined / scaffolds broken / sources tagged with {[t[0] if t else '-' for t in OUTSIDE_TAGS]}; "
             f"gap-run scope ({gaprun_n} cases): runs {GAP_RUNS} between contigs of 6 / 4 / 0.7 texels at {[10.0] if tier == 'quick' else [10.0, 2.5]} bp/texel, "
             "and gaps of seeded 2-3 scaffold inputs split into 2-4 rows; "
-            f"runs ending in an error (not judged): {stats['errors']}; per family: "
+            "combinations of (cuts, breaks, joins) by the recount, capped at 2 / 3 / 3, met (cases): "
+            + ", ".join(f"{k}: {v}" for k, v in sorted(count_classes.items()))
+            + f"; runs ending in an error (not judged): {stats['errors']}; per family: "
             + ", ".join(f"{k}={v}" for k, v in sorted(stats.items()) if k != "errors")
         ),
         exhaustive=False,
